@@ -289,7 +289,7 @@ func (fr *Frame) step(st *State, ins ssa.Instruction) bool {
 				v.Fs = append(v.Fs, fr.val(st, x))
 			}
 		}
-		fr.atAnchors(st, in, false, map[string]Val{"result": v})
+		fr.atAnchors(st, in, false, fr.resultNames(v))
 		if fr.parent == nil {
 			fr.checkEnsures(st, in, v)
 			fr.checkFrame(st, in)
@@ -942,6 +942,10 @@ func (fr *Frame) rangeInit(st *State, in *ssa.Range) {
 	r.facts.Assert("(>= " + n + " 0)")
 	r.facts.Assert(fmt.Sprintf("(forall ((i Int)) (! (=> (and (<= 0 i) (< i %s)) (and (select %s (select %s i)) (= (%s (select %s i)) i))) :pattern ((select %s i))))", n, dom, seq, idxf, seq, seq))
 	r.facts.Assert(fmt.Sprintf("(forall ((k %s)) (! (=> (select %s k) (and (<= 0 (%s k)) (< (%s k) %s) (= (select %s (%s k)) k))) :pattern ((select %s k)) :pattern ((%s k))))", ks, dom, idxf, idxf, n, seq, idxf, dom, idxf))
+	if fr.rangeIdxFn == nil {
+		fr.rangeIdxFn = map[int]string{}
+	}
+	fr.rangeIdxFn[ord] = idxf
 	fr.names[fmt.Sprintf("rkeys%d", ord)] = Val{K: KSpec, Sort: "(Array Int " + ks + ")", S: seq, T: types.NewSlice(mt.Key())}
 	fr.names[fmt.Sprintf("rn%d", ord)] = intVal(n)
 	fr.names[fmt.Sprintf("rdom%d", ord)] = Val{K: KSpec, Sort: "(Array " + ks + " Bool)", S: dom}
